@@ -68,10 +68,52 @@ def oracle_dfs(inp, out):
     return None
 
 
+def segments_search(case):
+    """guided search for get_segment_starts_for / get_segment_positions (plain Python over NumPy): every strictly
+    ascending `starts` over arrays of 0..4 atoms and every index array of length 0..2 with values in [-2, n + 2],
+    through the function text of the tree the VCs came from, against the per-atom recomputation"""
+    import ast
+    import itertools
+    import os
+    import numpy as np
+    from replayers.common import REPO_SRC
+    name = "get_segment_starts_for" if "starts_for" in case else "get_segment_positions"
+    path = os.path.join(REPO_SRC, "structure/segments.py")
+    fn = [x for x in ast.parse(open(path).read()).body if isinstance(x, ast.FunctionDef) and x.name == name]
+    ns = {"np": np}
+    exec(compile(ast.Module(fn, []), path, "exec"), ns)
+    f = ns[name]
+    tried = 0
+    all_starts = [(0, [0])] + [(n, [0] + list(inner) + [n]) for n in range(1, 5) for r in range(0, n) for inner in itertools.combinations(range(1, n), r)]
+    for n, starts in all_starts:
+        for m in (0, 1, 2):
+            for idx in itertools.product(range(-2, n + 3), repeat=m):
+                tried += 1
+                bad = any(i < 0 or i >= n for i in idx)
+                call = f"{name}(np.array({starts}), np.array({list(idx)}, dtype=int))"
+                try:
+                    got = np.asarray(f(np.array(starts, dtype=np.int64), np.array(idx, dtype=np.int64))).tolist()
+                except ValueError as e:
+                    if bad:
+                        continue
+                    return True, f"{call} raised ValueError: {e} although every index names an atom"
+                except Exception as e:
+                    return True, f"{call} raised {type(e).__name__}: {e}"
+                if bad:
+                    return True, f"{call} = {got} although an index names no atom of the {n}-atom array (ValueError expected)"
+                pos = [max(p for p in range(len(starts) - 1) if starts[p] <= i) for i in idx]
+                want = pos if name == "get_segment_positions" else [starts[p] for p in pos]
+                if got != want:
+                    return True, f"{call} = {got}, per-atom recomputation gives {want}"
+    return False, f"{tried} (starts, indices) pairs over arrays of 0..4 atoms all agree with the per-atom recomputation"
+
+
 def main():
     rec = json.load(open(sys.argv[1]))
     try:
-        if "recursion_depth" in rec["obligation"]:
+        if "segments.py" in rec.get("case", ""):
+            rep, detail = segments_search(rec["case"])
+        elif "recursion_depth" in rec["obligation"]:
             rep, detail = replay_depth()
         else:
             rng = random.Random(0)
